@@ -202,6 +202,26 @@ type derivRoles struct {
 	Key, Counter, Digits, Algo int // parameter indices in the derivation function (-1: n/a)
 }
 
+// roleTerms: the same roles as origin-term strings in the derivation's namespace ("" = not applicable).
+type roleTerms struct {
+	Key, Counter, Digits, Algo string
+	CounterParam               *ssa.Parameter
+}
+
+func (r derivRoles) terms(der *ssa.Function) roleTerms {
+	P := func(i int) string {
+		if i < 0 {
+			return ""
+		}
+		return fmt.Sprintf("param(%s#%d)", FuncName(der), i)
+	}
+	rt := roleTerms{Key: P(r.Key), Counter: P(r.Counter), Digits: P(r.Digits), Algo: P(r.Algo)}
+	if r.Counter >= 0 {
+		rt.CounterParam = der.Params[r.Counter]
+	}
+	return rt
+}
+
 // sumCallIn finds the hash.Hash Sum invoke in f.
 func sumCallsIn(f *ssa.Function) []*ssa.Call {
 	var out []*ssa.Call
